@@ -1,5 +1,7 @@
 import Gtree.Model.Pipeline
 import Gtree.Generated.Facts
+import Gtree.Lemmas.NetStuck
+import Gtree.Lemmas.NetMeasure
 /-
   C11 — massive mode always returns and leaves no goroutine behind: the part of it that is logic,
   proved for the abstract stage of Model/Pipeline.lean, for every number of items and workers, every
@@ -10,8 +12,12 @@ import Gtree.Generated.Facts
    * with a bare error send (the pinned code) a leak is reachable (three failing items, one stage) –
      the regression witness;
    * the guard hypothesis is discharged from the facts regenerated from /repo on every run.
-  Outside this model: the chaining of four such stages, real scheduling, the Go memory model, wall
-  clock; these are observed by the harness (deadline, goroutine dump, race detector).
+   * the same two results for the WHOLE CHAIN (Model/Net.lean): any number of stages with unbuffered
+     hand-overs between them, a closer and an error channel per stage, one waiter of handlePipelineErr
+     per stage, the errgroup's derived context and the deferred cancel() – `C11_chain_measure_decreases`,
+     `C11_chain_no_stuck_reachable`.
+  Outside these models: real scheduling, the Go memory model, wall clock; these are observed by the
+  harness (deadline, goroutine dump, race detector).
 -/
 namespace Gtree.Pipe
 
@@ -103,3 +109,39 @@ theorem C11_facts_handover_guarded : Gtree.Facts.bareHandoverSends = [] ∧ Gtre
 theorem C11_facts_locks : Gtree.Facts.sharpWrittenUnderLock = true ∧ Gtree.Facts.spreadBranchUnderLock = true := by decide
 
 end Gtree.Pipe
+
+namespace Gtree.Net
+
+/-- the whole chain of stages (any number of stages, workers per stage, items, failure placements,
+    cancellation instants, schedules): every step decreases a natural-number measure, so every run ends -/
+theorem C11_chain_measure_decreases (n n' : Net) (h : Step n n') : measure n' < measure n :=
+  C11_net_measure_decreases n n' h
+
+/-- … and where no goroutine of the library can move any more, the call has returned and every worker of
+    every stage has exited: no hang, no leak, for every reachable state of every chain -/
+theorem C11_chain_no_stuck_reachable (todo : Nat) (workers : List Nat) (hw : ∀ w ∈ workers, w ≥ 1) (n : Net)
+    (hr : Reach (init todo workers) n) (hstuck : ∀ n', ¬ SysStep n n') :
+    n.returned = true ∧ ∀ a ∈ n.stages, a.quiet :=
+  no_stuck n (inv_reach _ n (inv_init todo workers hw) hr) hstuck
+
+/-- cancelled before finishing ⇒ some waiter, or the caller, can move at once -/
+theorem C11_chain_cancel_unblocks_caller (n : Net) (hc : n.ecancel = true) (hr : n.returned = false) :
+    ∃ n', SysStep n n' := by
+  by_cases hall : ∀ a ∈ n.stages, a.waiter = false
+  · exact ⟨_, .ret n hr hall⟩
+  · have : ∃ a ∈ n.stages, a.waiter = true := by
+      apply Classical.byContradiction
+      intro hno
+      apply hall
+      intro a ha
+      cases hwa : a.waiter with
+      | false => rfl
+      | true => exact absurd ⟨a, ha, hwa⟩ hno
+    obtain ⟨a, ha, hwa⟩ := this
+    obtain ⟨pre, post, hs⟩ := mem_split ha
+    exact ⟨_, .waiterCancel n pre a post hs hwa hc⟩
+
+/-- non-vacuity: splitter (1 worker) → generator (10) → grower (10) → spreader (10), 7 blocks -/
+example : Inv (init 7 [1, 10, 10, 10]) := inv_init 7 [1, 10, 10, 10] (by decide)
+
+end Gtree.Net
